@@ -312,3 +312,131 @@ fn nb_gen_subinput() {
     }
     println!("NB-RESULT name=nb_gen_subinput status=ok cases={} key=- detail=7 rules x all strings<={} chars over 2 alphabets x all sub-ranges: Span / Position sub-input vs fresh copy (partial and full, offsets and trees)", cases, l);
 }
+
+
+// ---- second grammar: NON-silent WHITESPACE / COMMENT (their tokens appear in the pair tree where pest puts them) -------
+mod p2 {
+    #[derive(pest_derive::Parser)]
+    #[grammar_inline = r#"
+WHITESPACE = { " " }
+COMMENT = { "/*" ~ (!"*/" ~ ANY)* ~ "*/" }
+num = @{ ('0'..'1')+ }
+pair = { num ~ "," ~ num }
+list = { num ~ ("," ~ num)* }
+opt = { num? ~ ";" ~ num* }
+wrapped = ${ num ~ inner }
+inner = !{ num ~ num }
+"#]
+    pub struct P;
+}
+mod t2 {
+    use pest_typed_derive::TypedParser;
+    #[derive(TypedParser)]
+    #[grammar_inline = r#"
+WHITESPACE = { " " }
+COMMENT = { "/*" ~ (!"*/" ~ ANY)* ~ "*/" }
+num = @{ ('0'..'1')+ }
+pair = { num ~ "," ~ num }
+list = { num ~ ("," ~ num)* }
+opt = { num? ~ ";" ~ num* }
+wrapped = ${ num ~ inner }
+inner = !{ num ~ num }
+"#]
+    pub struct T;
+}
+fn from_pest2(p: pest::iterators::Pair<'_, p2::Rule>) -> Tree {
+    let sp = p.as_span();
+    Tree { rule: format!("{:?}", p.as_rule()), start: sp.start(), end: sp.end(), children: p.into_inner().map(from_pest2).collect() }
+}
+fn from_thin2(t: &ThinToken<t2::Rule>) -> Tree {
+    Tree { rule: format!("{:?}", t.rule), start: t.start, end: t.end, children: t.children.iter().map(from_thin2).collect() }
+}
+fn prune2(t: &Tree) -> Tree {
+    let atomic = ["num", "wrapped", "WHITESPACE", "COMMENT"].contains(&t.rule.as_str());
+    Tree { rule: t.rule.clone(), start: t.start, end: t.end, children: if atomic { vec![] } else { t.children.iter().map(prune2).collect() } }
+}
+macro_rules! check_rule2 {
+    ($name:ident, $s:expr, $cases:expr) => {{
+        let s: &str = $s;
+        *$cases += 1;
+        let key = || format!("grammar2,rule={},input={:?}", stringify!($name), s);
+        let pr = p2::P::parse(p2::Rule::$name, s);
+        let pest_res: Option<(usize, Tree)> = match pr { Ok(mut pairs) => { let top = pairs.next().unwrap(); Some((top.as_span().end(), from_pest2(top))) } Err(_) => None };
+        let tp = t2::pairs::$name::try_parse_partial(s);
+        let typed_res = match &tp { Ok((pos, node)) => Some((pos.pos(), from_thin2(&node.as_thin_token()))), Err(_) => None };
+        if pest_res.as_ref().map(|x| x.0) != typed_res.as_ref().map(|x| x.0) {
+            return Err(format!("{} detail=C01/C07: pest {:?} vs typed {:?} (verdict/offset)", key(), pest_res.as_ref().map(|x| x.0), typed_res.as_ref().map(|x| x.0)));
+        }
+        if let (Some((_, pt)), Some((_, tt))) = (&pest_res, &typed_res) {
+            if prune2(pt) != *tt { return Err(format!("{} detail=C02: pair tree differs (non-silent skip tokens): pest(pruned) {:?} vs typed {:?}", key(), prune2(pt), tt)); }
+            if !nested_ok(tt) { return Err(format!("{} detail=C15: spans not nested/ordered {:?}", key(), tt)); }
+        }
+    }};
+}
+fn all_rules2(s: &str, cases: &mut u64) -> Result<(), String> {
+    check_rule2!(pair, s, cases);
+    check_rule2!(list, s, cases);
+    check_rule2!(opt, s, cases);
+    check_rule2!(wrapped, s, cases);
+    check_rule2!(inner, s, cases);
+    Ok(())
+}
+#[test]
+fn nb_gen_skip_tokens() {
+    let l = bound(6);
+    let mut cases = 0u64;
+    for s in strings(&["0", "1", ",", " ", ";"], l).iter().chain(strings(&["1", ",", "/*", "*/", " "], l.min(5)).iter()) {
+        let r = std::panic::catch_unwind(std::panic::AssertUnwindSafe(|| all_rules2(s, &mut cases)));
+        match r {
+            Ok(Ok(())) => {}
+            Ok(Err(e)) => { println!("NB-RESULT name=nb_gen_skip_tokens status=fail cases={} key={}", cases, e); return; }
+            Err(_) => { println!("NB-RESULT name=nb_gen_skip_tokens status=fail cases={} key=input={:?} detail=C09: panic", cases, s); return; }
+        }
+    }
+    println!("NB-RESULT name=nb_gen_skip_tokens status=ok cases={} key=- detail=grammar with non-silent WHITESPACE/COMMENT: 5 rules x all strings<={} tokens over 2 alphabets: verdict/offset/pair tree incl. skipped tokens vs pest", cases, l);
+}
+
+
+// ---- third grammar: a non-silent COMMENT whose expression mentions a non-silent rule --------------------------------------
+mod p3 {
+    #[derive(pest_derive::Parser)]
+    #[grammar_inline = r#"
+WHITESPACE = _{ " " }
+COMMENT = { "/*" ~ body ~ "*/" }
+body = { (!"*/" ~ ANY)* }
+num = @{ ('0'..'1')+ }
+list = { num ~ ("," ~ num)* }
+"#]
+    pub struct P;
+}
+mod t3 {
+    use pest_typed_derive::TypedParser;
+    #[derive(TypedParser)]
+    #[grammar_inline = r#"
+WHITESPACE = _{ " " }
+COMMENT = { "/*" ~ body ~ "*/" }
+body = { (!"*/" ~ ANY)* }
+num = @{ ('0'..'1')+ }
+list = { num ~ ("," ~ num)* }
+"#]
+    pub struct T;
+}
+#[test]
+fn nb_gen_comment_inner() {
+    let l = bound(5);
+    let mut cases = 0u64;
+    for s in strings(&["1", ",", "/*", "*/", " ", "x"], l) {
+        cases += 1;
+        let pr = p3::P::parse(p3::Rule::list, &s);
+        fn fp(p: pest::iterators::Pair<'_, p3::Rule>) -> Tree { let sp = p.as_span(); Tree { rule: format!("{:?}", p.as_rule()), start: sp.start(), end: sp.end(), children: p.into_inner().map(fp).collect() } }
+        fn ft(t: &ThinToken<t3::Rule>) -> Tree { Tree { rule: format!("{:?}", t.rule), start: t.start, end: t.end, children: t.children.iter().map(ft).collect() } }
+        fn pr3(t: &Tree) -> Tree { let atomic = ["num"].contains(&t.rule.as_str()); Tree { rule: t.rule.clone(), start: t.start, end: t.end, children: if atomic { vec![] } else { t.children.iter().map(pr3).collect() } } }
+        let pest_res = match pr { Ok(mut pairs) => { let top = pairs.next().unwrap(); Some((top.as_span().end(), fp(top))) } Err(_) => None };
+        let typed_res = t3::pairs::list::try_parse_partial(s.as_str()).ok().map(|(p, n)| (p.pos(), ft(&n.as_thin_token())));
+        if pest_res.as_ref().map(|x| x.0) != typed_res.as_ref().map(|x| x.0) { println!("NB-RESULT name=nb_gen_comment_inner status=fail cases={} key=grammar3,rule=list,input={:?} detail=C01: pest {:?} vs typed {:?}", cases, s, pest_res.as_ref().map(|x| x.0), typed_res.as_ref().map(|x| x.0)); return; }
+        if let (Some((_, pt)), Some((_, tt))) = (&pest_res, &typed_res) {
+            if pr3(pt) != *tt { println!("NB-RESULT name=nb_gen_comment_inner status=fail cases={} key=grammar3,rule=list,input={:?} detail=C02: pest(pruned) {:?} vs typed {:?}", cases, s, pr3(pt), tt); return; }
+        }
+    }
+    println!("NB-RESULT name=nb_gen_comment_inner status=ok cases={} key=- detail=non-silent COMMENT mentioning a non-silent rule: all strings<={} tokens", cases, l);
+}
